@@ -68,9 +68,11 @@ void gv_lemma_cov_row(int d, int b, int b1, int db, int r)
 __CPROVER_requires(GV_MACHINE_BOUND(d <= 32768))
 __CPROVER_requires(0 <= b && b < d && b1 == b + 1 && db == d - b && 1 <= r && r <= d)
 __CPROVER_assigns()
-__CPROVER_ensures(r - 1 <= db ==> (0 <= (r - 1) * b1 && (r - 1) * b1 + GV_MIN(b, d - r) < d * (b + 1) - b * (b + 1) / 2))
-__CPROVER_ensures(r - 1 > db ==> (0 <= (r - 1) * b1 - (r - 1 - db) * (r - 1 - db + 1) / 2 &&
-                                  (r - 1) * b1 - (r - 1 - db) * (r - 1 - db + 1) / 2 + GV_MIN(b, d - r) <
+__CPROVER_ensures(r - 1 <= db ==> (0 <= (r - 1) * b1 &&
+                                   (r - 1) * b1 + (GV_MIN(b, d - r) + 1) <= d * (b + 1) - b * (b + 1) / 2))
+__CPROVER_ensures(r - 1 > db ==> (0 <= (r - 1 - db) * (r - 1 - db + 1) / 2 &&
+                                  0 <= (r - 1) * b1 - (r - 1 - db) * (r - 1 - db + 1) / 2 &&
+                                  (r - 1) * b1 - (r - 1 - db) * (r - 1 - db + 1) / 2 + (GV_MIN(b, d - r) + 1) <=
                                     d * (b + 1) - b * (b + 1) / 2));
 
 void gv_lemma_band_bounds(int d, int b, int r, int k)
@@ -132,10 +134,14 @@ __CPROVER_ensures(0 <= (r - 1) * (b + 1) + k && (r - 1) * (b + 1) + k < d * (b +
 #define MV_COV_ROWOFF(self, row) \
   ((row) - 1 > (self)->dim_b ? ((row) - 1) * (self)->band_1 - MV_COV_T(self, row) * (MV_COV_T(self, row) + 1) / 2 \
                              : ((row) - 1) * (self)->band_1)
+/* the address as the code forms it: (rep + (row-1)*band_1) - t(t+1)/2  (two pointer steps) */
+#define MV_COV_ROWPTR(self, row) \
+  ((row) - 1 > (self)->dim_b ? (self)->base.mem.rep + ((row) - 1) * (self)->band_1 - MV_COV_T(self, row) * (MV_COV_T(self, row) + 1) / 2 \
+                             : (self)->base.mem.rep + ((row) - 1) * (self)->band_1)
 #define MV_COV_ROWLEN(self, row) (GV_MIN((self)->band_, (self)->base.row_ - (row)) + 1)
 #define MV_CONTRACT_CovMat_row \
   __CPROVER_requires(WF_COV(self) && 1 <= row && row <= self->base.row_) __CPROVER_assigns() \
-  __CPROVER_ensures(__CPROVER_return_value == self->base.mem.rep + MV_COV_ROWOFF(self, row)) \
+  __CPROVER_ensures(__CPROVER_return_value == MV_COV_ROWPTR(self, row)) \
   __CPROVER_ensures(0 <= MV_COV_ROWOFF(self, row) && \
                     MV_COV_ROWOFF(self, row) + MV_COV_ROWLEN(self, row) <= self->base.mem.sz)
 
